@@ -10,6 +10,18 @@ BASELINE = json.load(open('/root/.vp/BASELINE.json'))['cmd'].replace('--junitxml
 
 # id -> (category, technique, text, note, design_ref)
 TABLE = {
+ 'C06': ('exploration',
+         'bounded exhaustive enumeration of evaluation-array shapes, NaN-sample subsets, covariance input forms, dof, test types and ALL model-order permutations on the real Result / inference_util code, judged by scipy t-tests and explicit-loop contrasts',
+         'n_model 1-4; evaluation arrays of 2-5 dimensions shaped like the eval_* outputs with axis sizes <= 4; every subset of <= 4 NaN samples; variance inputs scalar / vector / matrix / 3-stack with and without the ceiling rows; all 9 (n_rdm, n_pattern) pairs; dof 1,2,7; test types t-test / bootstrap / ranksum; every permutation of the model order (equivariance of every output); values from complete small alphabets and fixed fills. eval_fixed: SEM and the three p-value families equal scipy ttest_rel / ttest_1samp (one- and two-sided); model_var, diff_var, noise_ceil_var equal the explicit contrasts with the n/(n-1) factor; dual-bootstrap combination within its bounds; p in [0,1]; pairwise matrix symmetric with unit diagonal; p non-increasing in the effect on an 11-point grid; means are NaN-aware; SEM >= 0.',
+         'references in mc/ref/c06_ref.py and scipy.stats; rank-sum tests only with 3-D evaluations (documented precondition)', '4/C06'),
+ 'C15': ('exploration',
+         'bounded exhaustive enumeration of labelings (all set partitions), NaN masks over the data cells (<= 2 cells, whole channels, whole observations), methods, weightings, fold structures, dtypes and memory layouts on the real (compiled) unbalanced estimator, judged by a pairwise reference',
+         'Every set partition of <= 5 observations x P in {2,3} x every NaN mask with <= 2 missing cells plus whole-channel / whole-observation masks x six methods x both weightings x precision None/SPD x fold variants x int64/float64 x C/Fortran order: every value equals the average over admissible observation pairs of the kernel on the channels valid in both, labels in order of first appearance; calc_one_similarity for every condition pair; equality with calc_rdm where theory requires it; a channel missing everywhere == that channel deleted; dtype / layout invariance. Five compiled-kernel defect signatures are known findings (no Cython in the image); the class that over-reads the heap is executed once in a child process and otherwise skipped.',
+         'reference in mc/ref/c15_ref.py; the kernel is checked as built (similarity.c -> .so), the .pyx cannot be compiled here', '4/C15'),
+ 'C17': ('exploration',
+         'bounded exhaustive enumeration of RDM value vectors (all of {-1,0,1,2}^3, {0,1,2}^6), NaN masks, rank methods, quantile pairs and monotone / affine / scaling maps on the real transforms and compare(), judged by own definitions and invariance laws',
+         'All 64 vectors over {-1,0,1,2}^3 (and all 4096 ordered pairs as stacks), all 729 over {0,1,2}^6 and fixed fills through 23 transform operations (5 rank methods incl. NaN masks, sqrt, positive, minmax, geodesic, 9 quantile pairs of the geo-topological transform, custom functions): entry-wise equality with the definition, descriptors equal to the source\'s, measure name updated. Invariance: compare() before and after mapping the first, second or both arguments for rank-based measures (9 increasing maps), correlation-type (affine) and cosine-type (scaling) measures on all pairs over {0,1,2}^3 and {-1,0,1,2}^3.',
+         'reference in mc/ref/c17_ref.py; geo-topological quantiles accepted per RDM or jointly (statement silent); whitened measures 1e-5', '4/C17'),
  'C14': ('exploration',
          'bounded exhaustive enumeration of designs (every composition of repetitions, every row order / label sequence, channel counts incl. more channels than samples, all four estimators, dof forms, single / list / stack inputs) on the real noise estimators, judged by an explicit-loop reference and structural oracles',
          'For conditions 1..3 and every composition of the repetition counts with total <= 7, P in {1,2,3,5}, every distinct label sequence (thorough: every row permutation) for <= 5 rows, methods full / diag / shrinkage_eye / shrinkage_diag, dof None / scalar / list / ndarray, single inputs, lists of two and 3-D stacks, through cov_/prec_from_residuals, _from_unbalanced and (balanced designs) _from_measurements: full == pooled residual covariance with the stated dof, diag its diagonal, shrinkage estimates symmetric convex combinations with lambda in [0,1] recovered from the output, PSD / PD when shrinkage is active, measurement == unbalanced on balanced designs, one estimate per list element with that element\'s dof, inputs bit-identical, prec @ cov == I; values: all matrices over {0,1,2} for small n*P plus fixed fills.',
